@@ -652,3 +652,5 @@ MUTANTS = [
 RENAME_FUNCS = [(ML, 'Melody.set_length'), (EL, 'SimpleEventSequence.set_length'), (EL, 'SimpleEventSequence.increase_resolution'), (EL, 'SimpleEventSequence.__getitem__'),
                 (ML, 'Melody.from_quantized_sequence'), (ML, 'Melody._add_note'), (CL, 'ChordProgression.from_quantized_sequence'), (DL, 'DrumTrack.from_quantized_sequence'),
                 (PL, 'BasePerformance._append_steps'), (PL, 'BasePerformance.num_steps'), (LS, 'LeadSheet.append')]
+
+EXPLANATION += (' Location-independent additions: STEPS/num-steps-types (set of event types counted), STEPS/set-length-same (scenario steps == current length), PAIRED/append-validates-first (receivers unrolled through literal tuples and tuple-valued properties). INV is definite only on single-branch paths without unmodelled calls.')
